@@ -35,13 +35,13 @@ CHECKS.update({
  "C01": env("Histories (any policy, caches, faults, revocations, rotations, restarts) are run on the real SDK and on the Coq envelope model; API results must agree, every genuine record must decrypt to its payload in "
             "a live session and in an independent fresh-process reference decryptor, caller buffers (incl. spare capacity, reused after the call) must be unchanged. PROVED over all histories (one service/product, default "
             "key ids): the record a successful Encrypt returns decrypts to exactly the encrypted payload in another process that has only the metastore and the KMS (empty tables, caching off), at that moment "
-            "and at every later point of the history (cache-coherence invariant + symbolic execution of the cache-less Decrypt).",
             "and at every later point of the history (cache-coherence invariant + symbolic execution of the cache-less Decrypt); AND inside one long-lived process with key caches of any policy and capacity: after any "
             "history of new factories/sessions, encrypts and decrypts under any fault plans, clock changes and revocations, a fault-free Decrypt in any live session of the same partition id returns exactly the payload "
             "(total correctness: liveness invariant on reference counts with a ghost map of holds, Envelope/Live.v 2900 lines); with Session.Close in the history too for factories whose sessions own no key cache "
-            "(shared IK cache or IK caching off, Envelope/LiveClose.v); and an UNFAULTED Encrypt after any such history cannot fail - through cache hits, stale or invalid entries, metastore loads, key creation and the "
+            "(shared IK cache or IK caching off, Envelope/LiveClose.v), and for the DEFAULT policy where every session owns its intermediate-key cache and Session.Close destroys it, as long as no operation addresses a session "
+            "after its Close: the decrypt in any OPEN session of the partition returns the payload (liveness invariant relative to the set of destroyed caches, Envelope/LiveD.v + LiveCloseD.v); and an UNFAULTED Encrypt after any such history cannot fail - through cache hits, stale or invalid entries, metastore loads, key creation and the "
             "duplicate fallback (Envelope/Total.v 1000 lines).",
-            "Not in the theorems: histories that close per-session key caches or factories or use the session cache, region-suffixed ids, stored rows with creation stamp 0 (side condition nz_store), concurrency (C08/C16 models); "
+            "Not in the theorems: histories that close factories or use the session cache, operations on a session after its Close, region-suffixed ids, stored rows with creation stamp 0 (side condition nz_store), concurrency (C08/C16 models); "
             "these are decided by the correspondence and the monitors.", "6/C01"),
  "C02": env("Fault plans (err / false duplicate / error-after-write on every metastore, KMS, AEAD, allocator call, singles and pairs) on cold/warm/rotating states: a returned record's IK row and SK row must be in the "
             "authoritative store at return and a fresh process must decrypt it; an unfaulted encrypt must succeed. PROVED over all histories (any fault plans, policies, evictions, restarts, revocations; one "
